@@ -166,6 +166,7 @@ type Sim struct {
 	// observers
 	onRaftMsg      func(from *simNode, to uint64, group uuid.UUID, m raftpb.Message)
 	onApply        func(a applyRec)
+	onApplySync    func(n *simNode, group uuid.UUID, index uint64) // on the applying goroutine, at the instant of the apply
 	onIO           func(n *simNode, group uuid.UUID, op string, before bool)
 	pauseHook      func(nodeId uint64, partition uuid.UUID, point string)
 	searchLegs     []searchLeg
@@ -347,6 +348,9 @@ func newSim(cfg W3Cfg, out *Outcome, wantLog bool) *Sim {
 			inc = n.inc
 		}
 		a := applyRec{node: nodeId, inc: inc, group: group, index: e.Index, term: e.Term, dig: simrt.HashBytes(uint64(e.Type)+1, e.Data), typ: e.Type}
+		if s.onApplySync != nil && n != nil && n.alive && n.parts != nil {
+			s.onApplySync(n, group, e.Index)
+		}
 		s.post(func() {
 			s.applies = append(s.applies, a)
 			if s.onApply != nil {
